@@ -167,18 +167,29 @@ def eval_case(case):
     curve, secret, msg = case['curve'], case['secret'], case['msg']
     out = []          # records: dict(stream, desc, line, impl, nontrivial)
     viol = []         # (key, what, replay)
-    key = Key.from_secret_exponent(secret, curve.encode())
+    secret_form = 'seed'
+    if curve == 'ed' and case['seed'] % 3 == 0:
+        # an Ed25519 secret key is also accepted in its 64-byte form (seed followed by the public point; the 98-character `edsk…`):
+        # the key made from it is the key of the seed
+        long_sk = secret + K.indep_pubkey('ed', secret)
+        if case['seed'] % 2:
+            key, secret_form = Key.from_secret_exponent(long_sk, b'ed'), '64-byte'
+        else:
+            key, secret_form = Key.from_encoded_key(K.tz_encode('edsk64', long_sk) if hasattr(K, 'PREFIX') and 'edsk64' in getattr(K, 'PREFIX', {}) else
+                                                    __import__('base58').b58encode_check(bytes([43, 246, 78, 7]) + long_sk).decode()), 'edsk-98'
+    else:
+        key = Key.from_secret_exponent(secret, curve.encode())
     pub, sk = key.public_point, key.secret_exponent
     pk_text = key.public_key()
     em = K.scrub_spec(msg)
-    base = {'curve': curve, 'secret': secret.hex(), 'msg': K.py_in(msg)}
+    base = {'curve': curve, 'secret': secret.hex(), 'msg': K.py_in(msg), **({'secret_given_as': secret_form} if secret_form != 'seed' else {})}
 
     def rec(stream, desc, line, impl, nontrivial=True):
         out.append({'stream': stream, 'desc': {**base, **desc}, 'line': line, 'impl': impl, 'nontrivial': nontrivial})
 
     # public key vs an independent derivation (C08 covers this in depth; here it guards the independent verifier)
     if K.indep_pubkey(curve, secret) != pub:
-        viol.append((f'public-key-differs:{curve}', f'{curve} secret {secret.hex()}: public point {pub.hex()} differs from the independent derivation',
+        viol.append((f'public-key-differs:{curve}' + (f':{secret_form}' if secret_form != 'seed' else ''), f'{curve} secret {secret.hex()} (given as {secret_form}): public point {pub.hex()} differs from the independent derivation',
                      {**base}))
     sigs = []
     for generic in case['generics']:
